@@ -79,7 +79,10 @@ func eofTest(c ssa.Value, e ssa.Value) (bool, bool) {
 // other path must reach a return that returns e itself (phis are resolved by
 // the predecessor taken) or a panic. Re-entering a block already on the path
 // (a loop iteration) without having returned e drops the error.
-func errorReturnedWhenNonNil(e ssa.Value) (bool, string) {
+func errorReturnedWhenNonNil(e ssa.Value) (bool, string) { return errorReturnedWhenNonNilF(e, nil) }
+
+// errorReturnedWhenNonNilF: flag (optional) is a bool known to be true whenever e is non-nil; its false side is exempt.
+func errorReturnedWhenNonNilF(e ssa.Value, flag ssa.Value) (bool, string) {
 	def, ok := e.(ssa.Instruction)
 	if !ok {
 		return false, "error value is not defined by an instruction"
@@ -115,7 +118,7 @@ func errorReturnedWhenNonNil(e ssa.Value) (bool, string) {
 		case *ssa.Call:
 			// fmt.Errorf("...%w", e): wrapping returns the error
 			if callee := x.Call.StaticCallee(); callee != nil && callee.String() == "fmt.Errorf" {
-				return wrapsValue(x, e)
+				return wrapsValueP(x, func(v ssa.Value) bool { return denotes(v, upto) })
 			}
 		}
 		return false
@@ -149,6 +152,16 @@ func errorReturnedWhenNonNil(e ssa.Value) (bool, string) {
 			return
 		case *ssa.If:
 			cv := x.Cond
+			if flag != nil {
+				if cv == flag {
+					walk(b.Succs[0], 0)
+					return
+				}
+				if u, ok := cv.(*ssa.UnOp); ok && u.Op == token.NOT && u.X == flag {
+					walk(b.Succs[1], 0)
+					return
+				}
+			}
 			if is, nonNilOnTrue := nilTestD(cv, e, denotes, len(path)-1); is {
 				if nonNilOnTrue {
 					walk(b.Succs[0], 0)
@@ -209,6 +222,10 @@ func eofTestD(c ssa.Value, e ssa.Value, denotes func(ssa.Value, int) bool, upto 
 
 // wrapsValue: fmt.Errorf call whose format wraps (%w) the given value.
 func wrapsValue(c *ssa.Call, e ssa.Value) bool {
+	return wrapsValueP(c, func(v ssa.Value) bool { return v == e })
+}
+
+func wrapsValueP(c *ssa.Call, is func(ssa.Value) bool) bool {
 	if len(c.Call.Args) < 2 {
 		return false
 	}
@@ -239,7 +256,7 @@ func wrapsValue(c *ssa.Call, e ssa.Value) bool {
 				if mi, ok := v.(*ssa.MakeInterface); ok {
 					v = mi.X
 				}
-				if v == e {
+				if is(v) {
 					return true
 				}
 			}
